@@ -244,7 +244,7 @@ fn esc_str_e1() {
     check_str_repr(&buf);
 }
 
-// @verif name=esc_repr_wrap props=C16 tier=thorough timeout=1200 fns="StrRepr::write,BytesRepr::write,UnicodeEscape::with_forced_quote,AsciiEscape::with_forced_quote"
+// @verif name=esc_repr_wrap props=C16 tier=quick timeout=600 fns="StrRepr::write,BytesRepr::write,UnicodeEscape::with_forced_quote,AsciiEscape::with_forced_quote"
 //   bound="1 symbolic ASCII character / byte: the repr is [b] quote body quote with the layout's quote"
 #[kani::proof]
 #[kani::unwind(12)]
